@@ -54,7 +54,7 @@ impl<'a, W: Write> DocumentPrinter<'a, W> {
         )?;
 
         if let Some(targets) = &directive.targets {
-            write!(self.writer, " ")?;
+            write!(self.writer, " targets ")?;
             self.package_path(targets)?;
         }
 
